@@ -1165,10 +1165,10 @@ bool tree<Key, Value, ValueEqual>::compare(
               return false;
             }
           } else {
-            if ((compare_left_to_right && !po.default_is_top()) ||
-                (!compare_left_to_right && po.default_is_top())) {
-              return false;
-            }
+            // t is not empty and does not bind key: either the leaf's
+            // binding is missing in t or t has a binding missing in
+            // the leaf. In both cases the order does not hold.
+            return false;
           }
           if (compare_left_to_right && po.default_is_top() && !t->is_leaf()) {
             return false;
